@@ -74,7 +74,7 @@ Definition C10_request_line_callsite_full : Prop := forall line, bytes_ok line -
   (request_line_accepts line = true <-> Lang spec_request_line line).
 
 Theorem C10_request_line_callsite_partial : forall line, bytes_ok line ->
-  rstrip_by is_bytes_ws line = line ->
+  rstrip_by is_reqline_ws line = line ->
   (request_line_accepts line = true <-> Lang spec_request_line line).
 Proof. exact request_line_callsite_partial. Qed.
 Print Assumptions C10_request_line_callsite_partial.
